@@ -25,6 +25,7 @@ def dispatch (prop : String) (ins outs : List String) : Verdict :=
   | "C03" => C03.run ins outs
   | "C09" => C09.run ins outs
   | "C15" => C15.run ins outs
+  | "C04" => C04.run ins outs
   | _ => .bad ("unknown property " ++ prop)
 
 partial def loop (h : IO.FS.Stream) (out : IO.FS.Stream) (n : Nat) : IO Unit := do
